@@ -13,6 +13,7 @@ import itertools
 import os
 import re
 import socket
+import struct
 import subprocess
 import threading
 import time
@@ -33,6 +34,8 @@ CONFIGS = [
 ]
 BAD_REQUESTS = [b"BREW / HTTP/1.1\r\n\r\n", b"GET /nonexistent HTTP/1.1\r\n\r\n", b"GET /keyboard/999 HTTP/1.1\r\n\r\n", b"", b"GET /favicon.ico HTTP/1.1\r\n\r\n",
                 b"POST /screenshot HTTP/1.1\r\nContent-Length: 0\r\n\r\n", b"GET\r\n\r\n"]
+
+PAUSE_FLOW = os.environ.get("C19_PAUSE", "1") == "1"
 
 
 def evname(i):
@@ -102,6 +105,9 @@ class Server:
 
     def __call__(self, task):
         ci, n, req, port = task
+        pause_flow = (req == b"PAUSE")
+        if pause_flow:
+            req = b"GET /keyboard/32 HTTP/1.1\r\n\r\n"
         cfg = CONFIGS[ci]
         rb.quiet()
         self.setup()
@@ -138,6 +144,7 @@ class Server:
                 break
         resp = [None]
         served_at = None
+        preV = []
         if sh.shim_get_reached():
             def do_req():
                 try:
@@ -185,12 +192,15 @@ class Server:
             served_at = cur
             sh.shim_set_arm(-1)
             sh.shim_do_release()
+            if pause_flow:
+                self.pause_info = None
+                self.pause_flow(sim, port, done, sh, cont, tmax, cfg, preV)
         t.join(120)
         total = sh.shim_get_event()
         log = [evname(sh.shim_get_log(i)) for i in range(min(total, 8000))]
         hung = t.is_alive()
         out = {"total": total, "event": log[n] if n < len(log) else None, "served_at": (log[served_at] if served_at is not None and served_at < len(log) else None),
-               "served_index": served_at, "V": [], "hung": hung}
+               "served_index": served_at, "V": list(preV), "hung": hung, "pause": getattr(self, "pause_info", None) if pause_flow else None}
         if hung:
             out["V"].append(("hang", "integrate() did not return"))
             return out
@@ -204,11 +214,19 @@ class Server:
             return out
         if req != b"GET /simulation HTTP/1.1\r\n\r\n":
             return out
-        body = resp[0]
+        if pause_flow:
+            return out
+        out["t"] = self.check_snapshot(resp[0], port, cont, tmax, cfg, out["V"])
+        return out
+
+    def check_snapshot(self, body, port, cont, tmax, cfg, V, prefix=""):
+        """the response to GET /simulation must be a loadable snapshot at a step boundary whose continuation equals that of a copy
+        taken at that boundary; returns the snapshot's time (None if there is none)"""
+        rebound = self.rebound
         k = body.find(b"REBOUND Binary File")        # the snapshot starts with this magic string
         if not body.startswith(b"HTTP/1.1 200") or k < 0:
-            out["V"].append(("no-snapshot", "the response to GET /simulation is not a snapshot: %r" % body[:80]))
-            return out
+            V.append((prefix + "no-snapshot", "the response to GET /simulation is not a snapshot: %r" % body[:80]))
+            return None
         snap = body[k:]
         fn = "/var/tmp/c19_%d_%d.bin" % (os.getpid(), port)
         open(fn, "wb").write(snap)
@@ -216,29 +234,83 @@ class Server:
             try:
                 s2 = rebound.Simulation(fn)
             except BaseException as e:     # noqa
-                out["V"].append(("snapshot-unreadable", "the served snapshot cannot be loaded: %r" % (e,)))
-                return out
+                V.append((prefix + "snapshot-unreadable", "the served snapshot cannot be loaded: %r" % (e,)))
+                return None
         finally:
             os.remove(fn)
-        out["t"] = s2.t
         t_snap = s2.t
         tb = rb.bits(s2.t)
         if tb not in cont:
-            out["V"].append(("not-a-step-boundary", "the snapshot is at t=%r, which is not the time of any step boundary of the run" % (s2.t,)))
-            return out
+            V.append((prefix + "not-a-step-boundary", "the snapshot is at t=%r, which is not the time of any step boundary of the run" % (s2.t,)))
+            return t_snap
+        if prefix:
+            # a snapshot fetched from a paused run carries the paused status (the browser client shows it as paused, by design):
+            # the client that wants to continue it clears that first
+            s2._status = -1
         try:
             if s2.t < tmax:
                 s2.integrate(tmax, exact_finish_time=eft_of(cfg))
             else:
                 s2.synchronize()
         except BaseException as e:     # noqa
-            out["V"].append(("continuation-raised", "continuing from the snapshot raised %r" % (e,)))
-            return out
+            V.append((prefix + "continuation-raised", "continuing from the snapshot raised %r" % (e,)))
+            return t_snap
         F2 = particles_bits(s2)
         if F2 != cont[tb]:
-            d = max(abs(getattr(s2.particles[i], c) - getattr(sim.particles[i], c)) for i in range(sim.N) for c in ("x", "y", "z", "vx", "vy", "vz"))
-            out["V"].append(("continuation-differs", "continuing from the snapshot (t=%r) to the end of the run differs from continuing a copy taken at that step boundary: largest coordinate difference to the undisturbed run %.3g" % (t_snap, d)))
-        return out
+            V.append((prefix + "continuation-differs", "continuing from the snapshot (t=%r) to the end of the run differs from continuing a copy taken at that step boundary" % (t_snap,)))
+        return t_snap
+
+    def pause_flow(self, sim, port, done, sh, cont, tmax, cfg, V):
+        """after the pause key has been served: wait until the run stands in its pause loop, fetch a snapshot, single-step once
+        (cursor-down key), fetch again, resume.  The caller then compares the final state with the undisturbed run."""
+        def http(reqb):
+            try:
+                s = socket.create_connection(("127.0.0.1", port), timeout=30)
+                s.sendall(reqb)
+                buf = b""
+                while True:
+                    d = s.recv(65536)
+                    if not d:
+                        break
+                    buf += d
+                s.close()
+                return buf
+            except Exception as e:     # noqa
+                return b"EXC " + repr(e).encode()
+
+        def wait(cond):
+            t0 = time.time()
+            while not cond() and not done[0] and time.time() - t0 < 30:
+                time.sleep(0.0005)
+            return cond()
+        PAUSED = -3
+        self.pause_info = {"paused": False, "t1": None, "t2": None}
+        if not wait(lambda: sim._status == PAUSED):
+            if not done[0]:
+                V.append(("pause:not-honoured", "the run neither paused nor finished within 30 s after the pause key (status %d)" % sim._status))
+                http(b"GET /keyboard/32 HTTP/1.1\r\n\r\n")
+            return      # the key arrived during the last step: nothing to pause
+        time.sleep(0.003)       # the thread is (or is about to be) in the wait loop of reb_check_exit, holding no lock
+        self.pause_info["paused"] = True
+        ev0 = sh.shim_get_event()
+        t1 = self.check_snapshot(http(b"GET /simulation HTTP/1.1\r\n\r\n"), port, cont, tmax, cfg, V, "paused:")
+        self.pause_info["t1"] = t1
+        if sh.shim_get_event() != ev0:
+            V.append(("pause:moves", "the integration thread passed %d events while paused" % (sh.shim_get_event() - ev0)))
+        http(b"GET /keyboard/264 HTTP/1.1\r\n\r\n")
+        if wait(lambda: sim._status == PAUSED and sh.shim_get_event() > ev0):
+            time.sleep(0.003)
+            t2 = self.check_snapshot(http(b"GET /simulation HTTP/1.1\r\n\r\n"), port, cont, tmax, cfg, V, "single-step:")
+            self.pause_info["t2"] = t2
+            times = sorted(struct.unpack("<d", b)[0] for b in cont)
+            if t1 is not None and t2 is not None and t1 in times and t2 in times and times.index(t2) != times.index(t1) + 1:
+                V.append(("single-step:not-one-step", "a single-step key moved the paused run from t=%r to t=%r, which is not the next step boundary" % (t1, t2)))
+        elif not done[0]:
+            V.append(("single-step:not-honoured", "after the single-step key the run did not pause again within 30 s (status %d)" % sim._status))
+        if not done[0]:
+            http(b"GET /keyboard/32 HTTP/1.1\r\n\r\n")
+            # a request line the server cannot parse must not be taken for a repetition of the previous request (the pause key)
+            http(b"GET\r\n\r\n")
 
 
 # ------------------------------------------------------------------------------------------------ T threads
@@ -386,6 +458,9 @@ def run(ctx):
         for n in range(r[1]["total"]):
             tasks.append((ci, n, b"GET /simulation HTTP/1.1\r\n\r\n", port))
             port += 1
+        for n in (range(0, r[1]["total"], (3 if quick else 1)) if PAUSE_FLOW else ()):
+            tasks.append((ci, n, b"PAUSE", port))
+            port += 1
         for n in range(0, r[1]["total"], (7 if quick else 2)):
             for bi, b in enumerate(BAD_REQUESTS):
                 if quick and (n // 7 + bi) % 2:
@@ -396,6 +471,7 @@ def run(ctx):
     ctx.note("S: %d schedules over %d configurations (%s events each)" % (len(tasks), len(totals), sorted(set(totals.values()))))
     res = pool.run_tasks(srv, tasks, timeout=300, chunk=2, progress=lambda d, n: ctx.note("S %d/%d" % (d, n)))
     served = {}
+    npause = [0, 0, 0]
     for t, r in zip(tasks, res):
         ci, n, req, _ = t
         cfg = CONFIGS[ci]
@@ -405,9 +481,13 @@ def run(ctx):
             ctx.violation("server-%s:%s" % (r[0], cfg[0]), "%s: %s %s" % (lab, r[0], str(r[1])[-400:]), case)
             continue
         o = r[1]
+        if o.get("pause"):
+            npause[0] += 1
+            npause[1] += 1 if o["pause"]["paused"] else 0
+            npause[2] += 1 if o["pause"]["t2"] is not None else 0
         served[(o["event"], o["served_at"])] = served.get((o["event"], o["served_at"]), 0) + 1
         for sig, what in o["V"]:
-            kind = "snapshot" if req.startswith(b"GET /simulation") else "bad-request"
+            kind = "snapshot" if req.startswith(b"GET /simulation") else ("pause" if req == b"PAUSE" else "bad-request")
             ctx.violation("server:%s:%s:%s:at-%s" % (kind, sig, cfg[0], o["served_at"]), "%s (integration thread at %s, served at %s): %s" % (lab, o["event"], o["served_at"], what), case)
     # ---- T1
     ga = pool.run_tasks(GlobalsAudit(rebound, libdir), [0], timeout=600, chunk=1)[0]
@@ -502,8 +582,8 @@ def run(ctx):
     cov = {
         "evaluations": len(tasks) + len(dry) + nint + nthreadruns + 1,
         "distinct_nontrivial": len(tasks) + nint + len(served),
-        "rule": "S: one controlled execution per (configuration, event index, request); T2: interleavings of two simulations; T3: workload runs in concurrent threads",
-        "whfast512_interleavings": n_w512, "schedules": len(tasks), "events_per_configuration": totals and sorted(set(totals.values())), "distinct_served_positions": len(served),
+        "rule": "S: one controlled execution per (configuration, event index, request); requests: GET /simulation at every event, bad requests and the pause sequence (pause key at the event, snapshot while paused, single-step key, snapshot, resume) at every 3rd (thorough: every) event; T2: interleavings of two simulations; T3: workload runs in concurrent threads",
+        "whfast512_interleavings": n_w512, "schedules": len(tasks), "pause_sequences": npause[0], "pause_sequences_that_paused": npause[1], "pause_sequences_with_single_step": npause[2], "events_per_configuration": totals and sorted(set(totals.values())), "distinct_served_positions": len(served),
         "served_positions": sorted("%s->%s:%d" % (a, b, c) for (a, b), c in served.items())[:60],
         "writable_globals_in_library": nglob, "interleavings": nint, "thread_workload_runs": nthreadruns, "tsan_reports_total": races, "exhaustive": True, "samples": [str(tasks[0][:3])],
     }
@@ -515,4 +595,18 @@ def run(ctx):
 
 
 def replay(ctx, case):
+    if "event" in case and "cfg" in case:
+        # one server schedule: (configuration, event index, request)
+        rebound = ctx.use("rel")
+        sh = shim()
+        for pid_, nm in REALS:
+            sh.shim_set_real(pid_, ctypes.cast(getattr(rebound.clibrebound, nm), ctypes.c_void_p))
+        ci = [i for i, c in enumerate(CONFIGS) if [c[0], c[1], c[2]] == case["cfg"]][0]
+        req = case["request"].encode("latin1")
+        t0 = time.time()
+        out = Server(rebound)((ci, case["event"], req, 10000 + (os.getpid() % 3) * 7000 + 50))
+        print("event %s served at %s, %d events, %.1f s, pause flow: %s" % (out["event"], out["served_at"], out["total"], time.time() - t0, out.get("pause")))
+        for v in out["V"]:
+            print(v)
+        return 1 if out["V"] else 0
     return run(ctx)
